@@ -119,7 +119,9 @@ def run(ctx):
         rest = list(lines)
         while rest:
             rc, out, err = vlib.run_driver(exe, "\n".join(rest) + "\n", args=["batch"], timeout=timeout)
-            n = sum(1 for ln in out.splitlines() if ln.startswith('{"e":"end"'))
+            # input lines started (a two-pass line prints a second begin record with "pass":2)
+            n = sum(1 for ln in out.splitlines()
+                    if (ln.startswith('{"e":"begin"') or ln.startswith('{"e":"seek"')) and '"pass":2' not in ln)
             if rc != 0 and n == 0:
                 raise vlib.InfraError("drv_threaded_frames batch failed rc=%s %s" % (rc, err[-1000:]))
             if n == 0:
@@ -215,6 +217,11 @@ def run(ctx):
         k = rnd.choice([1, 2, 3, 4, 6, 9])
         b = rnd.choice([-1, -1, 0, 1, 2, k, k + 1])
         lines.append("run %d %d %d %d random %d" % (nw, k, b, rnd.choice([0, 1]), rnd.randrange(1 << 30)))
+    # the same application object running twice (two passes = two executions of the protocol from its initial state)
+    for i in range(20 if quick else 300):
+        nw = rnd.choice([2, 2, 3, 4])
+        k = rnd.choice([1, 2, 3, 5])
+        lines.append("run2 %d %d %d %d random %d" % (nw, k, rnd.choice([-1, -1, 1, 2]), rnd.choice([0, 1, 1]), rnd.randrange(1 << 30)))
     runs = split_runs(drive(lines))
     good = []
     for run in runs:
